@@ -10,6 +10,7 @@ corr   (model vs implementation)
   fill_in_map   same for fill_in_map(c)
   resolve       every NamedQubit of the circuit (registers, body, macro bodies under a generated context):
                 model `resolve` == [reg.name, idx] of the real `q.resolve_qubit(ctx)` / error class
+  fill_in_let_twice(model)  the model applied to its own result (with / without the overrides) returns it unchanged
   eval_qubit    SPEC validation: `Sem.evalQubit` == the real resolve_qubit whenever the library resolves (a chain that
                 leaves its source is rejected by the specification only: counted, see distribution)
 oracle (properties on the real code alone)
@@ -919,7 +920,7 @@ def run(seed: int, n: int, driver: str = DEFAULT_DRIVER, thorough: bool = False)
     if thorough:
         n = n * 5
     cases = gen_cases(seed, n, thorough)
-    corr = {k: {"cases": 0, "disagreements": []} for k in ("fill_in_let", "fill_in_map", "resolve", "eval_qubit")}
+    corr = {k: {"cases": 0, "disagreements": []} for k in ("fill_in_let", "fill_in_map", "resolve", "eval_qubit", "fill_in_let_twice(model)")}
     oracle = {}
     dist = Counter()
     nontrivial = set()
@@ -939,6 +940,20 @@ def run(seed: int, n: int, driver: str = DEFAULT_DRIVER, thorough: bool = False)
             reqs.append({"op": "resolve", "val": r["val"], "ctx": r["ctx"]})
             reqs.append({"op": "eval_qubit", "val": r["val"], "ctx": r["ctx"]})
     outs = run_driver(driver, reqs)
+    # model-level idempotence (C05_idempotent_full is not proved): a second fill_in_let of the MODEL's result, with and
+    # without the overrides, must return it unchanged
+    k = 0
+    reqs2 = []
+    for case, res in zip(cases, reals):
+        if res["parse"] is not None:
+            continue
+        m_fl = outs[k]
+        k += 2 + 2 * len(res["resolve"])
+        if "ok" in m_fl:
+            reqs2.append({"op": "fill_in_let", "circuit": m_fl["ok"], "override": [[kk, dump.num(v)] for kk, v in case["overrides"]]})
+            reqs2.append({"op": "fill_in_let", "circuit": m_fl["ok"], "override": []})
+    outs2 = run_driver(driver, reqs2)
+    k2 = 0
     k = 0
     emu_budget = max(40, n // 6) if not thorough else n
     for case, res in zip(cases, reals):
@@ -955,6 +970,12 @@ def run(seed: int, n: int, driver: str = DEFAULT_DRIVER, thorough: bool = False)
         if not ok:
             corr["fill_in_let"]["disagreements"].append({"case": sc, "model": m_fl, "impl": ij})
         dist["fill_in_let: " + ("ok" if "ok" in res["fl"] else res["fl"]["err"]) + (" (with overrides)" if case["overrides"] else "")] += 1
+        if "ok" in m_fl:
+            for again in (outs2[k2], outs2[k2 + 1]):
+                corr["fill_in_let_twice(model)"]["cases"] += 1
+                if canon(again) != canon(m_fl):
+                    corr["fill_in_let_twice(model)"]["disagreements"].append({"case": sc, "model": again, "impl": m_fl})
+            k2 += 2
         ok, ij = cmp_pass(m_fm, res["fm"])
         corr["fill_in_map"]["cases"] += 1
         if not ok:
